@@ -157,24 +157,31 @@ fn first_line(b: &[u8]) -> String
 		.replace('\t', " ")
 }
 
+/// Run one of LLVM's own checkers on IR text. A run that ends without a verdict (killed, timed out on a loaded machine:
+/// no message on stderr) is repeated with more time; `NO-VERDICT` if that keeps happening.
+fn run_checker(name: &str, cmd: &str, args: &[&str], ir: &str) -> Result<(), String>
+{
+	for attempt in 0..3u32
+	{
+		let o = run_tool(cmd, args, ir.as_bytes(), 30 * (attempt + 1))?;
+		if o.status.success()
+		{
+			return Ok(());
+		}
+		let msg = first_line(&o.stderr);
+		let no_verdict = o.status.code() == Some(124) || o.status.code().is_none() || msg.trim().is_empty();
+		if !no_verdict
+		{
+			return Err(format!("{}: {}", name, msg));
+		}
+	}
+	Err(format!("{}: NO-VERDICT", name))
+}
+
 fn verify_ir(ir: &str) -> Result<(), String>
 {
-	let o = run_tool("llvm-as", &["-o", "/dev/null", "-"], ir.as_bytes(), 20)?;
-	if !o.status.success()
-	{
-		return Err(format!("llvm-as: {}", first_line(&o.stderr)));
-	}
-	let o = run_tool(
-		"opt",
-		&["-passes=verify", "-disable-output", "-"],
-		ir.as_bytes(),
-		20,
-	)?;
-	if !o.status.success()
-	{
-		return Err(format!("opt-verify: {}", first_line(&o.stderr)));
-	}
-	Ok(())
+	run_checker("llvm-as", "llvm-as", &["-o", "/dev/null", "-"], ir)?;
+	run_checker("opt-verify", "opt", &["-passes=verify", "-disable-output", "-"], ir)
 }
 
 /// `define`d symbols with their linkage, from the IR text.
@@ -363,7 +370,17 @@ pub fn alpha(fields: &[&str]) -> String
 	{
 		if let Some(ir) = &o.linked_ir
 		{
-			match run_tool("lli", &[], ir.as_bytes(), 10)
+			// (a run that hits the time limit on a loaded machine is repeated once with a longer one)
+			let first = run_tool("lli", &[], ir.as_bytes(), 10);
+			let result = match &first
+			{
+				Ok(output) if output.status.code() == Some(124) || output.status.code() == Some(137) =>
+				{
+					run_tool("lli", &[], ir.as_bytes(), 90)
+				}
+				_ => first,
+			};
+			match result
 			{
 				Ok(output) =>
 				{
